@@ -244,6 +244,15 @@ type Case struct {
 	Post   []int ` + "`json:\"post\"`" + `
 	Lvl    int   ` + "`json:\"lvl\"`" + `
 	Err    bool  ` + "`json:\"err\"`" + `
+	Sib    []Sib ` + "`json:\"sib\"`" + `
+}
+
+// Sib: a sibling logger derived, AFTER the logger under test exists, from one of its ancestors
+// (From = number of derivation steps that ancestor went through) and used once on another writer.
+type Sib struct {
+	From int    ` + "`json:\"from\"`" + `
+	Kind string ` + "`json:\"kind\"`" + ` // ctx | count | hook | hooks2
+	N    int    ` + "`json:\"n\"`" + `
 }
 
 type Result struct {
@@ -357,17 +366,42 @@ func main() {
 		}
 		cp := &capture{}
 		l := zerolog.New(cp)
+		anc := []zerolog.Logger{l}
 		for i, a := range c.Pre {
 			l = l.Hook(otherHook(i, a))
+			anc = append(anc, l)
 		}
 		switch c.Caller {
 		case "ctx":
 			l = l.With().Caller().Logger()
+			anc = append(anc, l)
 		case "count":
 			l = l.With().CallerWithSkipFrameCount(c.N).Logger()
+			anc = append(anc, l)
 		}
 		for i, a := range c.Post {
 			l = l.Hook(otherHook(i+1, a))
+			anc = append(anc, l)
+		}
+		// siblings: derived later from an ancestor of l, used on their own writer; l must not notice
+		for i, s := range c.Sib {
+			from := anc[len(anc)-1]
+			if s.From >= 0 && s.From < len(anc) {
+				from = anc[s.From]
+			}
+			var sl zerolog.Logger
+			switch s.Kind {
+			case "ctx":
+				sl = from.With().Caller().Logger()
+			case "count":
+				sl = from.With().CallerWithSkipFrameCount(s.N).Logger()
+			case "hooks2":
+				sl = from.Hook(otherHook(i, 0), otherHook(i+1, s.N))
+			default:
+				sl = from.Hook(otherHook(i, s.N))
+			}
+			sl = sl.Output(io.Discard)
+			sl.Info().Msg("sibling")
 		}
 		zerolog.CallerSkipFrameCount = c.G
 		zlog.Logger = l
@@ -428,7 +462,18 @@ type caseT struct {
 	Post   []int  `json:"post"`
 	Lvl    int    `json:"lvl"`
 	Err    bool   `json:"err"`
+	Sib    []sibT `json:"sib"`
 	K      int    `json:"-"` // intended skip: the user frame the property promises
+}
+
+// sibT: a sibling logger derived after the logger under test from one of its ancestors (From =
+// number of derivation steps of that ancestor: 0 = zerolog.New, len(Pre) = the parent of the
+// With().Caller() step, ...), then used once on another writer.  Nothing is promised about the
+// sibling here; the logger under test must report exactly what it reports without it.
+type sibT struct {
+	From int    `json:"from"`
+	Kind string `json:"kind"` // ctx | count | hook | hooks2
+	N    int    `json:"n"`
 }
 
 type resultT struct {
@@ -522,17 +567,34 @@ func standalone(l leafT, cs caseT) string {
 		fmt.Fprintf(&b, "func w%d(p *P) { w%d(p) } // user frame %d\n", i, i-1, i)
 	}
 	b.WriteString("\nfunc main() {\n\tl := zerolog.New(os.Stdout)\n")
+	keep := ""
+	if len(cs.Sib) > 0 {
+		b.WriteString("\tanc := []zerolog.Logger{l} // anc[i] = l after i derivation steps\n")
+		keep = "\tanc = append(anc, l)\n"
+	}
 	for _, a := range cs.Pre {
-		fmt.Fprintf(&b, "\tl = l.Hook(skipHook(%d))\n", a)
+		fmt.Fprintf(&b, "\tl = l.Hook(skipHook(%d))\n%s", a, keep)
 	}
 	switch cs.Caller {
 	case "ctx":
-		b.WriteString("\tl = l.With().Caller().Logger()\n")
+		b.WriteString("\tl = l.With().Caller().Logger()\n" + keep)
 	case "count":
-		fmt.Fprintf(&b, "\tl = l.With().CallerWithSkipFrameCount(%d).Logger()\n", cs.N)
+		fmt.Fprintf(&b, "\tl = l.With().CallerWithSkipFrameCount(%d).Logger()\n%s", cs.N, keep)
 	}
 	for _, a := range cs.Post {
-		fmt.Fprintf(&b, "\tl = l.Hook(skipHook(%d))\n", a)
+		fmt.Fprintf(&b, "\tl = l.Hook(skipHook(%d))\n%s", a, keep)
+	}
+	for _, s := range cs.Sib {
+		switch s.Kind {
+		case "ctx":
+			fmt.Fprintf(&b, "\t_ = anc[%d].With().Caller().Logger() // sibling, derived after l\n", s.From)
+		case "count":
+			fmt.Fprintf(&b, "\t_ = anc[%d].With().CallerWithSkipFrameCount(%d).Logger() // sibling, derived after l\n", s.From, s.N)
+		case "hooks2":
+			fmt.Fprintf(&b, "\t_ = anc[%d].Hook(skipHook(0), skipHook(%d)) // sibling, derived after l\n", s.From, s.N)
+		default:
+			fmt.Fprintf(&b, "\t_ = anc[%d].Hook(skipHook(%d)) // sibling, derived after l\n", s.From, s.N)
+		}
 	}
 	fmt.Fprintf(&b, "\tzerolog.CallerSkipFrameCount = %d\n\tzlog.Logger = l\n", cs.G)
 	errv := "nil"
@@ -542,6 +604,13 @@ func standalone(l leafT, cs caseT) string {
 	fmt.Fprintf(&b, "\tp := &P{L: &l, W: l, A: %d, B: %d, Lvl: zerolog.Level(%d), Err: %s}\n", cs.A, cs.B, cs.Lvl, errv)
 	fmt.Fprintf(&b, "\tw%d(p) // every caller field must be file:line of user frame %v\n}\n", cs.D, expectedFrames(l, cs))
 	return b.String()
+}
+
+func sibNote(cs caseT) string {
+	if len(cs.Sib) == 0 {
+		return ""
+	}
+	return fmt.Sprintf("; parent with %d hooks added one at a time, then %d sibling logger(s) derived from an ancestor after this logger was made: %+v", len(cs.Pre), len(cs.Sib), cs.Sib)
 }
 
 var c19levels = []int{-1, 0, 1, 2, 3, 4, 5, 6, 8}
@@ -625,7 +694,7 @@ func runC19(c *Ctx) {
 		}
 	}
 
-	c.Res.Rule = "one source line per (entry point of the generated table x {Caller(), CallerSkipFrame(a).Caller(), Caller(b), CallerSkipFrame(a).Caller(b), caller hook on the logger, CallerSkipFrame(a) + caller hook} x finalizer) and per Print/Printf/Println/Write/log.Print/log.Printf (Write also through an io.Writer value); each run for every wrapper depth d=0..4 and every k<=d, the skip k realised by each single source in turn (CallerSkipFrame, Caller(k), CallerWithSkipFrameCount(2+k), global CallerSkipFrameCount=2+k, an earlier hook calling CallerSkipFrame) and by a seeded random split over all sources, with other hooks absent/present (struct hook, HookFunc, LevelHook); Fatal entries in their own process; non-trivial = k>0 or other hooks present; distinct by (statement, d, parameters)"
+	c.Res.Rule = "one source line per (entry point of the generated table x {Caller(), CallerSkipFrame(a).Caller(), Caller(b), CallerSkipFrame(a).Caller(b), caller hook on the logger, CallerSkipFrame(a) + caller hook} x finalizer) and per Print/Printf/Println/Write/log.Print/log.Printf (Write also through an io.Writer value); each run for every wrapper depth d=0..4 and every k<=d, the skip k realised by each single source in turn (CallerSkipFrame, Caller(k), CallerWithSkipFrameCount(2+k), global CallerSkipFrameCount=2+k, an earlier hook calling CallerSkipFrame) and by a seeded random split over all sources, with other hooks absent/present (struct hook, HookFunc, LevelHook); sibling sweep: parents with 0..7 hooks added one call at a time, child by With().Caller()/CallerWithSkipFrameCount with/without a later Hook, then one or two sibling loggers derived from the parent, the grandparent or the child (caller hook with another count, plain hook, frame-skipping hook, two hooks in one call) and used on their own writer - the child's caller field must be unchanged; Fatal entries in their own process; non-trivial = k>0 or other hooks present; distinct by (statement, d, parameters)"
 	c.OpenShards("From Verif Require Import Base.Prelude Misc.CallerTypes Gen.CallChains Misc.Caller Harness.C19H.\nFrom Coq Require Import String.\nOpen Scope string_scope.\nOpen Scope list_scope.\nOpen Scope Z_scope.",
 		"c19_case * option (list (option N))", "mismatches c19_run c19_eqb", 1000)
 
@@ -778,6 +847,77 @@ func runC19(c *Ctx) {
 		}
 
 	}
+	// ---- sibling sweep: the logger under test is one of several children of the same ancestors.
+	// Parents with 0..7 hooks added one call at a time (every fill state of a hook slice that grows
+	// by doubling), the child made by With().Caller() or CallerWithSkipFrameCount, with and
+	// without a later Hook; then one or two siblings derived from the same parent, from the
+	// grandparent or from the child itself (another caller hook with a different count, a plain
+	// hook, a hook that skips a frame, two hooks in one call) and used once on their own writer.
+	// The child's caller field must still be its user's call site.
+	nSib := 0
+	{
+		byKind := map[leafKind][]leafT{}
+		for _, l := range leaves {
+			if !l.Fatal {
+				byKind[l.Kind] = append(byKind[l.Kind], l)
+			}
+		}
+		sibKinds := []sibT{{Kind: "count", N: 3}, {Kind: "ctx"}, {Kind: "hook", N: 0}, {Kind: "hook", N: 1}, {Kind: "hooks2", N: 1}, {Kind: "count", N: 2}}
+		n := 0
+		for p := 0; p <= 7; p++ {
+			for _, sk := range sibKinds {
+				for _, rel := range []int{0, -1, 1} { // sibling of the caller step's parent / grandparent / of the child itself
+					for _, first := range []string{"ctx", "count"} {
+						for _, post := range []int{0, 1} {
+							from := p + rel
+							if from < 0 {
+								continue
+							}
+							n++
+							d := 2
+							k := n % 3
+							for _, kind := range []leafKind{shPlain, shTerminal, shSkip, shCaller} {
+								ls := byKind[kind]
+								if len(ls) == 0 {
+									continue
+								}
+								l := ls[(n*7+int(kind))%len(ls)]
+								cs := caseT{D: d, G: 2, K: k, Caller: first, Lvl: c19levels[n%len(c19levels)], Err: n%2 == 0, Pre: make([]int, p)}
+								if post == 1 {
+									cs.Post = []int{0}
+								}
+								s1 := sk
+								s1.From = from
+								cs.Sib = []sibT{s1}
+								if n%4 == 0 { // a second sibling from the same ancestor
+									s2 := sibKinds[(n/4)%len(sibKinds)]
+									s2.From = from
+									cs.Sib = append(cs.Sib, s2)
+								}
+								switch {
+								case kind == shSkip:
+									cs.A = k
+									if first == "count" {
+										cs.N = 2
+									}
+								case first == "ctx" || kind == shCaller:
+									cs.G = 2 + k
+									if first == "count" {
+										cs.N = 2 + k
+									}
+								default:
+									cs.N = 2 + k
+								}
+								add(cs, l)
+								nSib++
+							}
+						}
+					}
+				}
+			}
+		}
+	}
+	c.Res.ExtraCoverage["sibling_sweep_cases"] = nSib
 	if c.Replay != "" {
 		var rp struct {
 			Case struct {
@@ -846,7 +986,7 @@ func runC19(c *Ctx) {
 		stmtLine := lineOf[l.Idx]
 		jc := map[string]interface{}{"statement": l.Code, "source": fmt.Sprintf("%s:%d", filepath.Join(pdir, "main.go"), stmtLine),
 			"wrapper_depth": cs.D, "k": cs.K, "a": cs.A, "b": cs.B, "CallerSkipFrameCount": cs.G, "logger_caller": cs.Caller, "n": cs.N,
-			"hooks_before": cs.Pre, "hooks_after": cs.Post, "level": cs.Lvl, "err": cs.Err, "own_process": fatalRun,
+			"hooks_before": cs.Pre, "hooks_after": cs.Post, "siblings_derived_later": cs.Sib, "level": cs.Lvl, "err": cs.Err, "own_process": fatalRun,
 			"plan": cs, "standalone": standalone(l, cs),
 			"how_to_replay": "bin/check C19 --replay <this file>; or by hand: build " + pdir + " (its go.mod points at the repository under test) and feed `plan` as one JSON line on stdin"}
 		// observed user-frame indices
@@ -875,7 +1015,7 @@ func runC19(c *Ctx) {
 			c.Violate(Violation{Key: "event-count:" + l.Entry, Monitor: "one-event", Desc: fmt.Sprintf("statement `%s` wrote %d events, want 1", l.Code, r.Events), Case: jc, Observed: r.Raw})
 		} else if len(r.Callers) != len(exp) {
 			c.Violate(Violation{Key: "caller-field-count:" + root, Monitor: "caller-names-user-frame",
-				Desc: fmt.Sprintf("statement `%s`: %d caller fields, want %d", l.Code, len(r.Callers), len(exp)), Case: jc, Observed: r.Raw, Expected: len(exp)})
+				Desc: fmt.Sprintf("statement `%s`%s: %d caller fields, want %d", l.Code, sibNote(cs), len(r.Callers), len(exp)), Case: jc, Observed: r.Raw, Expected: len(exp)})
 		} else {
 			for i, e := range exp {
 				if e < 0 || e >= len(r.Want) {
@@ -891,8 +1031,8 @@ func runC19(c *Ctx) {
 						got = fmt.Sprintf("user frame %d", j)
 					}
 					c.Violate(Violation{Key: "wrong-caller-frame:" + where, Monitor: "caller-names-user-frame",
-						Desc: fmt.Sprintf("`%s` (wrapper depth %d, CallerSkipFrameCount=%d, a=%d, b=%d, logger caller=%s n=%d, earlier hooks add %d): caller field %d is %s = %s, want user frame %d = %s",
-							l.Code, cs.D, cs.G, cs.A, cs.B, cs.Caller, cs.N, sum(cs.Pre), i, r.Callers[i], got, e, r.Want[e]),
+						Desc: fmt.Sprintf("`%s` (wrapper depth %d, CallerSkipFrameCount=%d, a=%d, b=%d, logger caller=%s n=%d, earlier hooks add %d%s): caller field %d is %s = %s, want user frame %d = %s",
+							l.Code, cs.D, cs.G, cs.A, cs.B, cs.Caller, cs.N, sum(cs.Pre), sibNote(cs), i, r.Callers[i], got, e, r.Want[e]),
 						Case: jc, Observed: r.Callers, Expected: r.Want[e]})
 				}
 			}
@@ -905,12 +1045,13 @@ func runC19(c *Ctx) {
 		if !fallback {
 			c.AddCase(term, jc)
 		}
-		key := fmt.Sprintf("%d|%d|%d|%d|%d|%s|%d|%v|%v", l.Idx, cs.D, cs.A, cs.B, cs.G, cs.Caller, cs.N, cs.Pre, cs.Post)
+		key := fmt.Sprintf("%d|%d|%d|%d|%d|%s|%d|%v|%v|%v", l.Idx, cs.D, cs.A, cs.B, cs.G, cs.Caller, cs.N, cs.Pre, cs.Post, cs.Sib)
 		c.Count(key, cs.K > 0 || len(cs.Pre)+len(cs.Post) > 0)
 		c.Hist("shape", shapeNames[l.Kind])
 		c.Hist("depth_k", fmt.Sprintf("d%d k%d", cs.D, cs.K))
 		c.Hist("other_hooks", fmt.Sprintf("%d", len(cs.Pre)+len(cs.Post)))
 		c.Hist("logger_caller", cs.Caller)
+		c.Hist("siblings", fmt.Sprint(len(cs.Sib)))
 		if strings.HasPrefix(l.Entry, "log.") {
 			c.Hist("package", "log")
 		} else {
